@@ -150,3 +150,37 @@ func Gen() *rapid.Generator[Src] {
 		}
 	})
 }
+
+var oddBits = []string{"%25", "%2520", "%20", "%2F", "%3F", "%23", "%252F", "%41", "%zz", "%", "+", "~", "@", "=", "&", ",", ";", "!", "*", "'", "(", ")", " ", "é", "日本"}
+
+// GenOdd generates sources of three or more path segments - which the documented rule leaves as
+// written whatever they contain - whose segments and ref hold percent escapes, reserved characters
+// and non-ASCII text. They are NOT part of C17's domain (which excludes percent-encoded sources);
+// the fixpoint and round-trip checks (C09, C02) use them: whatever such a source is normalised to,
+// normalising again must not change it - and on this tree it is left exactly as written.
+func GenOdd() *rapid.Generator[Src] {
+	return rapid.Custom(func(t *rapid.T) Src {
+		n := rapid.IntRange(3, 5).Draw(t, "oddnseg")
+		parts := make([]string, n)
+		for i := range parts {
+			seg := genName(t, "oddseg")
+			for j, m := 0, rapid.IntRange(0, 2).Draw(t, "oddnbits"); j < m; j++ {
+				at := rapid.IntRange(1, len(seg)).Draw(t, "oddat")
+				seg = seg[:at] + rapid.SampledFrom(oddBits).Draw(t, "oddbit") + seg[at:]
+			}
+			parts[i] = seg
+		}
+		s := strings.Join(parts, "/")
+		if rapid.IntRange(0, 3).Draw(t, "oddquery") == 0 {
+			s += "?" + genName(t, "oddq") + rapid.SampledFrom([]string{"", "=1", "=%2F", "&x=y"}).Draw(t, "oddqv")
+		}
+		if rapid.Bool().Draw(t, "oddhasref") {
+			ref := genRefComponent(t)
+			if rapid.Bool().Draw(t, "oddrefbit") {
+				ref += rapid.SampledFrom(oddBits).Draw(t, "oddrefb") + genRefComponent(t)
+			}
+			s += "#" + ref
+		}
+		return Src{Text: s, Canon: s, Class: "3+segments-odd", Tricky: true}
+	})
+}
